@@ -251,6 +251,12 @@ PROPS = {
                 technique="deterministic simulation: two actors around a CONNECT/upgrade, seeded interleaving of the two directions incl. request bytes beyond the CONNECT head before/after the response; history checks on return codes, consumed counts, callbacks and transactions",
                 design_ref="DESIGN.md section 7 C16",
                 rule="0-2 ordinary exchanges, then CONNECT (or GET+Upgrade) with status 200/204/299/101/407/403/502/400/500/302, followed by plain HTTP exchanges, TLS-looking bytes or nothing; request bias 20-100 % (100 = all request bytes first, i.e. beyond the CONNECT head in the same or next chunk); all segmentation strategies. Non-trivial/distinct as for C01."),
+    "C07": dict(flavor="san", level="exploration", registered=False,
+                claim="Fidelity: payloads encoded by the actors (zlib gzip/raw/zlib-wrapped, liblzma LZMA-alone, two-layer lists, mislabelled and plain bodies) are delivered through every segmentation of the compressed stream and compared with the original payload, under a simulated well-behaved clock. Bound: in every run (incl. the chaos mix with small bomb limits, corrupted streams and clock faults) delivered bytes per message stay within max(limit, 2048 x compressed) + one output buffer and the decompressor chain within the layer limit.",
+                note="Encoders (zlib deflate, liblzma) are trusted actor code; lzma is not mixed into multi-codec lists (libhtp decodes in listed order, the RFC lists in applied order; gzip/deflate mixes are rescued by libhtp's restart logic). The gettimeofday seam advances 1 us per read.",
+                technique="deterministic simulation: seeded chunkings of the compressed stream under a simulated clock; conservation oracle against the actor's payload + online bound invariant",
+                design_ref="DESIGN.md section 7 C07",
+                rule="9 payload kinds (empty, 1 B, text, random, 8191/8192/8193/16384, 20-70 KB low entropy, up to 200 KB highly compressible, 9-30 KB incompressible) x 11 codings x {CL, chunked, close} x {single-cut sweep over the first/last 40 bytes of the compressed body, 1-5 byte chunks, tiny first chunks then large, all general strategies}; every 4th run is a chaos plan (captures incl. compressed ones, mutations, small bomb limits, clock faults) with only the bound invariants. Non-trivial/distinct as for C01."),
     "C03": dict(flavor="san", level="exploration",
                 claim="Differential simulation: the same seeded well-formed history is delivered under two segmentations of the simulated wire and everything the statement lists is compared; exhaustive single-cut sweeps for short histories are visited by consecutive run indices, the rest is seeded sampling.",
                 note="Domain is the CRLF grammar of DESIGN.md section 4 (bare-LF traffic is exercised only under the all-input properties); log messages, connection flags and return codes are not compared.",
